@@ -97,6 +97,27 @@ def clone (fresh : Nat → α → α) (b : Builder α) : Option (Builder α) :=
   | some l => cloneLoop fresh l 0 (new b.n)
   | none => none
 
+/-- `Clone::clone_from(&mut self, source: &Self)`.  `impl Clone for ArrayBuilder` defines only `clone`, so
+    this is the trait's provided method `*self = source.clone()`: the clone is made FIRST (the clone
+    calls of the elements, in order), then the assignment drops the old value of `*self` (its `Drop`:
+    the `inited` elements, in order) and moves the clone in.  Afterwards `self` is exactly a clone of
+    `source`, whatever it held before (more, fewer or as many elements).
+    Result: the new `self` and the elements of the old `self` that were dropped; `none` = UB / a
+    panicking push inside `clone` (shown unreachable). -/
+def cloneFrom (fresh : Nat → α → α) (self source : Builder α) : Option (Builder α × List α) :=
+  match clone fresh source, dropped self with
+  | some c, some old => some (c, old)
+  | _, _ => none
+
+/-- a run of `push`es, each one caught: the builder afterwards and the rejected values (each dropped by
+    the unwinding of its own `push`) -/
+def pushAll (b : Builder α) : List α → Builder α × List α
+  | [] => (b, [])
+  | v :: r =>
+    match push b v with
+    | .ok b' => pushAll b' r
+    | .panic => ((pushAll b r).1, v :: (pushAll b r).2)
+
 /-! ### `Clone::clone` with an element `Clone` that may PANIC
 
   `T::clone` is user code: it may panic part-way through `ArrayBuilder::clone` / `ArrayConsumer::clone`.
@@ -147,6 +168,10 @@ inductive Op (α : Type) where
   | cloneDrop                  -- clone, drop the CLONE, continue with the original
   | clonePanic (j : Nat)       -- clone with an element `Clone` that panics on its `j`-th call (caught);
                                -- a clone that completes (`j ≥ len`) is dropped; continue with the original
+  | cloneFrom (vs : List α)    -- a SECOND builder `t` (same `N`) is made by pushing `vs` (each push caught);
+                               -- `self.clone_from(&t)`; `t` is dropped; continue with `self`
+  | cloneInto (vs : List α)    -- a second builder `t` is made by pushing `vs`; `t.clone_from(&self)`;
+                               -- `self` is dropped; continue with `t`
 deriving Repr
 
 /-- what one operation shows to the caller -/
@@ -154,8 +179,13 @@ inductive Obs (α : Type) where
   | pushed (ok : Bool)                -- `false`: the assert fired (the value is dropped by unwinding)
   | cloned (dropped : List α)         -- the elements dropped with the builder that was let go
   | panicked (dropped : List α)       -- `T::clone` panicked inside `clone`: the copies dropped by unwinding
+  | clonedFrom (rejected old source : List α)
+                                      -- `target.clone_from(&source)` between two builders: the values the second
+                                      -- builder rejected while it was filled, the OLD elements of the target
+                                      -- dropped by the assignment, and the elements of the source when it is
+                                      -- dropped afterwards (= its `as_slice` after the call: it is unchanged)
   | ub
-deriving Repr
+deriving Repr, DecidableEq
 
 /-- one step. The second state component counts the elements created so far (pushed values and
     clones): `fresh k x` is the clone of `x` created as the `k`-th element. -/
@@ -183,6 +213,16 @@ def step (fresh : Nat → α → α) (st : Builder α × Nat) : Op α → (Build
       | some cl => ((st.1, st.2 + st.1.inited), .cloned cl)
       | none => (st, .ub)
     | .ub => (st, .ub)
+  | .cloneFrom vs =>
+    let t := pushAll (new st.1.n) vs
+    match cloneFrom (fun i => fresh (st.2 + vs.length + i)) st.1 t.1, dropped t.1 with
+    | some (c, old), some src => ((c, st.2 + vs.length + t.1.inited), .clonedFrom t.2 old src)
+    | _, _ => (st, .ub)
+  | .cloneInto vs =>
+    let t := pushAll (new st.1.n) vs
+    match cloneFrom (fun i => fresh (st.2 + vs.length + i)) t.1 st.1, dropped st.1 with
+    | some (c, old), some src => ((c, st.2 + vs.length + st.1.inited), .clonedFrom t.2 old src)
+    | _, _ => (st, .ub)
 
 /-- run a history from a state, collecting what each step showed -/
 def run (fresh : Nat → α → α) : Builder α × Nat → List (Op α) → (Builder α × Nat) × List (Obs α)
